@@ -491,4 +491,150 @@ theorem step_win_fd {os : Os} {w : World} {wins : List (List Win.Rec)} {mem : Me
           (by cases ebpOff <;> exact hmatch) hsv hnd
         exact key prog vs hth hfv q1 ⟨csp, q2, by rw [q2', hesp]⟩ ⟨v, hev, hvle, q3⟩ (hcl vs q4)
 
+/-! ### one frame through an FPO record -/
+
+/-- the `set_caller_register` calls of the FPO routine (`ebx` passed through or not, then `eip`,
+    `esp`, `ebp`) all succeed and leave the generated values, valid, in the caller -/
+theorem callerOut_fpo (c0 : Caller) {pre : List (String × Nat)} {e : Exp} {v : Nat}
+    (hpre : pre = [] ∨ ∃ x, pre = [("ebx", x)] ∧ x ≤ U32MAX)
+    (hretm : e.ret ≤ U32MAX) (hspm : e.sp ≤ U32MAX) (hv : v ≤ U32MAX) (hfp : e.fp = some v)
+    (hregs : ∀ p ∈ e.regs, p ∈ pre) :
+    ∃ c', applySets c0 (pre ++ [("eip", e.ret), ("esp", e.sp), ("ebp", v)]) = (true, c') ∧ CallerOut c' e := by
+  have hall : ∀ x ∈ pre ++ [("eip", e.ret), ("esp", e.sp), ("ebp", v)], x.1 ∈ x86Regs ∧ x.2 ≤ U32MAX := by
+    intro x hx
+    rcases List.mem_append.mp hx with hx | hx
+    · rcases hpre with rfl | ⟨y, rfl, hy⟩
+      · cases hx
+      · simp only [List.mem_cons, List.not_mem_nil, or_false] at hx; subst hx; exact ⟨by simp [x86Regs], hy⟩
+    · simp only [List.mem_cons, List.not_mem_nil, or_false] at hx
+      rcases hx with rfl | rfl | rfl
+      · exact ⟨by simp [x86Regs], hretm⟩
+      · exact ⟨by simp [x86Regs], hspm⟩
+      · exact ⟨by simp [x86Regs], hv⟩
+  obtain ⟨c', hc'⟩ := applySets_ok c0 _ hall
+  have hnd : ((pre ++ [("eip", e.ret), ("esp", e.sp), ("ebp", v)]).map (·.1)).Nodup := by
+    rcases hpre with rfl | ⟨y, rfl, _⟩ <;> simp (config := { decide := true })
+  have hval := applySets_valid hc'
+  have hvals := fun r x hm => applySets_vals_mem hc' hnd (r := r) (v := x) hm
+  refine ⟨c', hc', ?_, ?_, ⟨v, hfp, hv, ?_⟩, ⟨?_, ?_, ?_⟩, ?_⟩
+  · exact hvals "eip" e.ret (by simp)
+  · exact hvals "esp" e.sp (by simp)
+  · exact hvals "ebp" v (by simp)
+  · exact (hval "eip").mpr (Or.inr (by simp))
+  · exact (hval "esp").mpr (Or.inr (by simp))
+  · exact (hval "ebp").mpr (Or.inr (by simp))
+  · intro p hp
+    have hm := hregs p hp
+    have hm' : p ∈ pre ++ [("eip", e.ret), ("esp", e.sp), ("ebp", v)] := List.mem_append_left _ hm
+    obtain ⟨h1, h2⟩ := hall p hm'
+    exact ⟨h1, h2, (hval p.1).mpr (Or.inr (List.mem_map.mpr ⟨p, hm', rfl⟩)), hvals p.1 p.2 hm'⟩
+
+/-- **one frame through a STACK WIN FPO record** (with or without `allocates_base_pointer`, the
+    grand callee's parameter size, the leftover-return-address skip on the context frame only) -/
+theorem step_win_fpo {os : Os} {w : World} {wins : List (List Win.Rec)} {mem : Mem} {f : Frame}
+    {g : Option Frame} {st : MState} {e : Exp} {si : SInfo}
+    (hv : WinView f g st) (hq : winAt w wins st.instr = (none, some si))
+    (hw : linkWinM w wins mem st e = true)
+    (hret : 4096 ≤ e.ret) (hretm : e.ret ≤ U32MAX) (hspm : e.sp ≤ U32MAX) (hsp : st.sp < e.sp) :
+    ∃ f', step (mkEnvW .x86 os w wins mem) mem f g = some f' ∧ FrameIs .cfi e f' := by
+  have hspf : f.ctx.sp < e.sp := by rw [hv.sp]; exact hsp
+  unfold linkWinM at hw
+  simp only [hq] at hw
+  cases hth : si.thing with
+  | prog x => simp [hth] at hw
+  | abp abp =>
+    simp only [hth, Bool.and_eq_true, decide_eq_true_eq, beq_iff_eq] at hw
+    obtain ⟨⟨⟨⟨⟨⟨hfs, hfsm⟩, ha4⟩, hr1⟩, hesp⟩, hebp⟩, hregs⟩ := hw
+    obtain ⟨b, hfp⟩ := Option.isSome_iff_exists.mp hfs
+    have hble := (hv.fp_some hfp).2.2
+    have hgc : st.gcp ≤ U32MAX := by omega
+    have hsav : si.info.sav.toNat ≤ U32MAX := by
+      have := UInt32.toNat_lt si.info.sav; simp only [U32MAX]; omega
+    -- the walker as C07's formulae see it
+    have wgc : (winWalker mem f g).gcParam.toNat = st.gcp := by rw [hv.gcParam, u32_toNat_ofNat hgc]
+    have hwfs : winFrameSize si.info (winWalker mem f g).gcParam =
+        some (UInt32.ofNat (si.info.loc.toNat + si.info.sav.toNat + st.gcp)) := by
+      rw [winFrameSize_some, wgc]
+      exact ⟨hfsm, u32_toNat_ofNat hfsm⟩
+    have tfs : (UInt32.ofNat (si.info.loc.toNat + si.info.sav.toNat + st.gcp)).toNat =
+        si.info.loc.toNat + si.info.sav.toNat + st.gcp := u32_toNat_ofNat hfsm
+    have tsp : (UInt32.ofNat st.sp).toNat = st.sp := u32_toNat_ofNat hv.sp_le
+    -- the caller's frame pointer
+    have hfpo : ∃ v, e.fp = some v ∧ v ≤ U32MAX ∧
+        fpoEbp si.info abp (winWalker mem f g) (UInt32.ofNat st.sp) = .ok (UInt32.ofNat v) := by
+      cases abp with
+      | true =>
+        simp only [if_true, Bool.and_eq_true, decide_eq_true_eq, beq_iff_eq] at hebp
+        obtain ⟨⟨h8, hrd⟩, hs⟩ := hebp
+        obtain ⟨v, hev⟩ := Option.isSome_iff_exists.mp hs
+        rw [hev] at hrd
+        refine ⟨v, hev, read4_le hrd, ?_⟩
+        rw [fpoEbp_abp, tsp, wgc, if_neg (by omega), winWalker_mem_some hrd]
+        rfl
+      | false =>
+        simp only [Bool.false_eq_true, if_false, beq_iff_eq] at hebp
+        refine ⟨b, by rw [hebp, hfp], hble, ?_⟩
+        rw [fpoEbp_noabp, hv.reg_ebp mem hfp]
+        rfl
+    obtain ⟨v, hev, hvle, hfe⟩ := hfpo
+    -- what is passed through: `ebx`, when no base pointer is allocated and it is known
+    have hpre : (fpoPre abp (winWalker mem f g) = [] ∨
+        ∃ x, fpoPre abp (winWalker mem f g) = [("ebx", x)] ∧ x ≤ U32MAX) ∧
+        ∀ p ∈ e.regs, p ∈ fpoPre abp (winWalker mem f g) := by
+      constructor
+      · rw [fpoPre_spec]
+        cases abp with
+        | true => exact Or.inl rfl
+        | false =>
+          cases (winWalker mem f g).reg "ebx" with
+          | none => exact Or.inl rfl
+          | some x =>
+            right
+            refine ⟨x.toNat, rfl, ?_⟩
+            have := UInt32.toNat_lt x; simp only [U32MAX]; omega
+      · intro p hp
+        simp only [List.all_eq_true, Bool.and_eq_true, beq_iff_eq, Bool.not_eq_true'] at hregs
+        obtain ⟨⟨h1, h2⟩, h3⟩ := hregs p hp
+        obtain ⟨q1, q2⟩ := hv.regs "ebx" p.2 h3
+        have hx : (winWalker mem f g).reg "ebx" = some (UInt32.ofNat p.2) := by
+          rw [winWalker_reg mem f g (by decide), q1, q2]; rfl
+        have hp2 : p.2 ≤ U32MAX := q2 ▸ hv.wf "ebx" (by decide)
+        rw [fpoPre_spec, h2, hx]
+        simp only [u32_toNat_ofNat hp2, List.mem_cons, List.not_mem_nil, or_false]
+        exact Prod.ext h1 rfl
+    -- the plan of the routine
+    have hplan : fpoPlan si.info abp (winWalker mem f g) =
+        .ok { sets := fpoPre abp (winWalker mem f g) ++ [("eip", e.ret), ("esp", e.sp), ("ebp", v)],
+              done := true } := by
+      by_cases hlo : st.first = true ∧ mem.read (st.sp + (si.info.loc.toNat + si.info.sav.toNat + st.gcp)) 4 = some st.ip
+      · rw [if_pos hlo] at ha4 hr1 hesp
+        have hgcf : (winWalker mem f g).hasGC = false := by rw [hv.hasGC, hlo.1]; rfl
+        have h := fpo_leftover_skip (abp := abp) hwfs (hv.reg_esp mem)
+          (by rw [tsp, tfs]; exact winWalker_mem_some hlo.2) hgcf (hv.reg_eip mem)
+          (by rw [tsp, tfs]; exact winWalker_mem_some hr1) hfe
+        rw [h, tsp, tfs, u32_toNat_ofNat hretm, u32_toNat_ofNat hvle, hesp]
+      · rw [if_neg hlo] at ha4 hr1 hesp
+        have hno : (winWalker mem f g).hasGC = true ∨
+            ∃ ce, (winWalker mem f g).reg "eip" = some ce ∧ UInt32.ofNat e.ret ≠ ce := by
+          by_cases hf : st.first = true
+          · right
+            refine ⟨_, hv.reg_eip mem, ?_⟩
+            intro heq
+            have := (u32_ofNat_inj hretm hv.ip_le).mp heq
+            exact hlo ⟨hf, by rw [hr1, this]⟩
+          · left
+            rw [hv.hasGC]
+            simpa using hf
+        have h := (fpo_formulae (abp := abp) hwfs (hv.reg_esp mem)
+          (by rw [tsp, tfs]; exact winWalker_mem_some hr1) hno hfe).2
+        rw [h, tsp, tfs, u32_toNat_ofNat hretm, u32_toNat_ofNat hvle, hesp]
+    obtain ⟨c', hc', ho⟩ := callerOut_fpo (clearAll clearNamesActual (callerOfCtx f.ctx)) hpre.1 hretm hspm hvle hev hpre.2
+    have hres : winResult clearNamesActual none (some si) (winWalker mem f g) (callerOfCtx f.ctx) = .ok (true, c') := by
+      simp only [winResult, walkFpo, hth, hplan, runPlan, hc', Bool.and_self]
+    have hq' : winAt w wins f.instruction = (none, some si) := by rw [hv.instr]; exact hq
+    have hcw := cfiWalkW_win_ok (mem := mem) (g := g) hq' (Or.inr rfl) (c := c') hres
+    have hcfi : (mkEnvW .x86 os w wins mem).cfi f g = some (ctxOfCaller c') := by
+      rw [mkEnvW_cfi_x86 os w wins mem f g hv.vsp]; exact hcw
+    exact step_of_callerOut rfl hcfi ho hret hretm hspm hspf
+
 end MdModel.Walk
